@@ -588,7 +588,7 @@ class World:
                                     prec.append(["ref", [op, ost, o.name]])
                         out.append([n, preds, succs, prec])
                     except Exception as e:
-                        out.append([n, [["!", [], type(e).__name__, []]], [], []])
+                        out.append([n, [[["!"], [], type(e).__name__, []]], [], []])
         return out
 
     # ------------------------------------------------------------------
